@@ -177,12 +177,12 @@ func init() {
 		ID:    "C10",
 		Level: "exploration",
 		Rule: "case = one comparison filter (6 operators + regex; operands: literal of each JSON type incl. 17 number spellings, @, @.a, @[0], $.x, a missing path; both orders; " +
-			"plus every valid systematic comparison) over a container of 1..7 members holding every JSON type; judged: (a) the selection under float64 decoding equals the selection " +
+			"plus every valid systematic comparison) over a container of 1..7 members (one case in twelve 17..40) holding every JSON type; unless the query compares two paths with ==/!=, half of the documents are re-spelled before decoding (each number in another JSON spelling of the same float64: 1E2, 100.0, 1.0E+2, 1000000000000000000000, -0, 0e5 ...); judged: (a) the selection under float64 decoding equals the selection " +
 			"under json.Number decoding, (b) every member selected by == < <= > >= =~ against a literal holds an operand of the literal's JSON type (number for ordering, string for " +
 			"regex), members whose operand is missing or of another type are never selected by those and always by !=, a comparison with an absent $-operand selects nothing " +
 			"(everything for !=; everything for == only when the other path is absent for every member too), (c) SPEC agrees in both decode modes; " +
 			"non-trivial = the selection is neither empty nor everything; distinct = distinct (query, container)",
-		Assumptions: []string{"number texts in documents are Go's shortest float formatting, so json.Number text equality coincides with numeric equality for path == path", "members are pairwise distinct"},
+		Assumptions: []string{"for path == path the number texts in documents are Go's shortest float formatting, so json.Number text equality coincides with numeric equality (the property's own restriction); every other query also sees other spellings", "members are pairwise distinct"},
 		Plan: func(tier string, seed int64) *harness.Plan {
 			// path == path is decided by deep equality of the two values; when one side is the
 			// output of a user function its number representation is the function's choice, not
